@@ -101,7 +101,12 @@ Inductive c10case :=
 | KReenc (b : bytes) (impl_dec : dres) (impl_reenc : option bytes)
 (* node level (C05): a real node fed `n` hostile datagrams (requests, and replies to its own in-flight
    lookups and puts); did its event loop panic, does it still complete a fresh put / answer a ping *)
-| KNode (scenario n : N) (panicked alive : bool).
+| KNode (scenario n : N) (panicked alive : bool)
+(* API level (C05): two put calls on one threaded node that share a target (kinds: 1 mutable, 2 announce_peer,
+   3 announce_signed_peer), the second issued while the first one's lookup runs; the storing peers answer the store
+   requests as scripted. Outcomes: 0 Ok, 1 Err(query error), 2 Err(concurrency error), 3 the caller's thread
+   panicked, 4 no outcome *)
+| KTwoPuts (first_kind second_kind first_outcome second_outcome : N).
 
 (* failure codes: 1 model<>impl, 2 property fails on impl; 115 = known class F15 (2-byte transaction
    id re-encoded as 4 bytes) *)
@@ -114,6 +119,12 @@ Definition check10 (c : c10case) : list N :=
       (if dres_eqb (of_bytes b) idec then [] else [1]) ++
       (match idec with DPanic => [2] | _ => [] end)
   | KNode _ _ panicked alive => if panicked || negb alive then [2] else []
+  (* known class F29 (code 129), exactly: the caller of an announce whose info hash is the target of a mutable put that
+     replaced its query is handed that put's concurrency error, which its API wrapper maps to unreachable!();
+     every other panic or missing outcome is an ordinary violation *)
+  | KTwoPuts k1 k2 o1 o2 =>
+      if (o1 =? 3) && (o2 =? 2) && ((k1 =? 2) || (k1 =? 3)) && (k2 =? 1) then [129]
+      else if (o1 =? 3) || (o2 =? 3) || (o1 =? 4) || (o2 =? 4) then [2] else []
   | KReenc b idec ire =>
       (if dres_eqb (of_bytes b) idec
           && match idec, ire with
